@@ -248,6 +248,7 @@ def inline_new_helpers(raw, known):
     if not helpers:
         return []
     used = set()
+    touched = set()
     for _round in range(4):
         changed = False
         for q, b in bodies.items():
@@ -260,10 +261,14 @@ def inline_new_helpers(raw, known):
                     if c in helpers and c != q:
                         _inline_at(b, bi, helpers[c])
                         used.add(c)
+                        touched.add(q)
                         changed = True
                 bi += 1
         if not changed:
             break
+    for q in touched:
+        if q not in used:
+            thread_jumps(bodies[q], raw.get('adts', []))
     # a helper that is no longer called anywhere (and whose address is not taken) disappears from the fact set
     still = set()
     for q, b in bodies.items():
@@ -279,7 +284,7 @@ def inline_new_helpers(raw, known):
     return sorted(used)
 
 
-def _inline_at(b, bi, callee):
+def _inline_at(b, bi, callee, forward_refs=True):
     blk = b['blocks'][bi]
     t = blk['t']
     loff = len(b['locals'])
@@ -308,6 +313,46 @@ def _inline_at(b, bi, callee):
                              'ty': t.get('dest_ty', ''), 'sp': nb['t'].get('sp') or sp})
             nb['t'] = {'k': 'goto', 't': cont, 'sp': nb['t'].get('sp') or sp} if cont is not None else {'k': 'unreachable', 'sp': sp}
         b['blocks'].append(nb)
+    # a parameter that received `&x` / `&mut x` of a caller variable (or of a field path of one): inside the inlined body
+    # `*param` is that place itself, so that the callee's updates are updates of the caller's variable again
+    new_blocks = b['blocks'][boff:]
+    for i, a in enumerate(t['args'] if forward_refs else []):
+        if a.get('k') not in ('move', 'copy') or a['p']['pr']:
+            continue
+        u = a['p']['l']
+        ud = _single_def(b, u)
+        if ud is None or ud[2]['rv'].get('k') != 'ref':
+            continue
+        tgt = ud[2]['rv']['p']
+        if any(e.get('k') != 'field' for e in tgt['pr']):
+            continue
+        pl = loff + 1 + i
+        places = []
+        _places(new_blocks, places)
+        whole_use = False
+        for p in places:
+            if p['l'] != pl:
+                continue
+            if p['pr'] and p['pr'][0].get('k') == 'deref':
+                p['l'] = tgt['l']
+                p['pr'] = copy.deepcopy(tgt['pr']) + p['pr'][1:]
+            else:
+                whole_use = True
+        if not whole_use:
+            # the parameter copy and the reference temporary are dead now
+            blk['st'] = [st for st in blk['st'] if not (st.get('k') == 'assign' and st['p']['l'] == pl and not st['p']['pr'])]
+            still = False
+            for blk2 in b['blocks']:
+                for st in blk2['st']:
+                    if st.get('k') == 'assign' and st['p']['l'] == u and not st['p']['pr']:
+                        continue
+                    if _uses_local(st, u):
+                        still = True
+                if _uses_local(blk2['t'], u):
+                    still = True
+            if not still:
+                for blk2 in b['blocks']:
+                    blk2['st'] = [st for st in blk2['st'] if not (st.get('k') == 'assign' and st['p']['l'] == u and not st['p']['pr'])]
 
 
 def dissolve_new_structs(raw, known_adts):
@@ -363,6 +408,10 @@ def dissolve_new_structs(raw, known_adts):
             walk(b)
         raw['adts'] = [x for x in raw['adts'] if x['q'] != q]
         raw['bodies'] = [b for b in raw['bodies'] if b['q'] not in own]
+        for b in raw['bodies']:
+            for li, l in enumerate(list(b['locals'])):
+                if l.get('ty') == tup and li > b.get('argc', 0):
+                    _split_tuple_local(b, li, [f['name'] for f in fields], [f['ty'] for f in fields])
         done.append('struct %s read as the tuple %s' % (q, tup))
     return done
 
@@ -442,73 +491,10 @@ def normalise_internal_iteration(raw):
     return done
 
 
-def _expand_internal(b, bi, kind, bodies):
-    blk = b['blocks'][bi]
-    t = blk['t']
-    args = t['args']
-    want = 2 if kind == 'for_each' else 3
-    if len(args) != want:
-        return None
-    clo_op = args[-1]
-    if clo_op.get('k') not in ('move', 'copy') or clo_op['p']['pr']:
-        return None
-    cl = clo_op['p']['l']
-    d = _single_def(b, cl)
-    if d is None or d[2]['rv'].get('k') != 'agg' or d[2]['rv'].get('ak') != 'closure':
-        return None
-    cagg = d[2]['rv']
-    cq = cagg.get('def')
-    cb = bodies.get(cq)
-    if cb is None or cb.get('argc') != want:
-        return None
-    sp = t.get('sp')
-    env_ty = cb['locals'][1]['ty']
-    by_ref = env_ty.startswith('&')
-    item_ty = cb['locals'][want]['ty']
-    it_ty = (t.get('arg_tys') or ['?'])[0]
-    L = len(b['locals'])
-    names = ['it', 'ref', 'opt', 'd', 'item', 'cref', 'unit', 'acc']
-    tys = [it_ty, '&mut ' + it_ty, 'std::option::Option<%s>' % item_ty, 'isize', item_ty, env_ty, '()', t.get('dest_ty', '?')]
-    loc = {}
-    for n, ty in zip(names, tys):
-        loc[n] = len(b['locals'])
-        b['locals'].append({'ty': ty})
-    pl = lambda n, pr=None: {'l': loc[n], 'pr': pr or []}
-    N1 = len(b['blocks'])
-    N2, N3, N4, N5 = N1 + 1, N1 + 2, N1 + 3, N1 + 4
-    cont = t['t']
-    dest = t['dest']
-    # B: move the iterator (and the accumulator) into loop state
-    blk['st'].append({'k': 'assign', 'p': pl('it'), 'rv': {'k': 'use', 'o': copy.deepcopy(args[0])}, 'ty': it_ty, 'sp': sp})
-    if kind == 'fold':
-        blk['st'].append({'k': 'assign', 'p': pl('acc'), 'rv': {'k': 'use', 'o': copy.deepcopy(args[1])}, 'ty': tys[7], 'sp': sp})
-    blk['t'] = {'k': 'goto', 't': N1, 'sp': sp}
-    nextfn = {'k': 'const', 'ty': 'fn(&mut %s) -> Option<%s> {<%s as std::iter::Iterator>::next}' % (it_ty, item_ty, it_ty),
-              'fn': {'def': 'std::iter::Iterator::next', 'path': 'std::iter::Iterator::next', 'name': 'next', 'local': False, 'substs': [it_ty],
-                     'subst_heads': [it_ty.split('<')[0]], 'trait': 'std::iter::Iterator', 'self': it_ty, 'self_head': it_ty.split('<')[0], 'res_kind': 'item'}}
-    b['blocks'].append({'st': [{'k': 'assign', 'p': pl('ref'), 'rv': {'k': 'ref', 'mut': True, 'p': pl('it')}, 'ty': tys[1], 'sp': sp}],
-                        't': {'k': 'call', 'f': nextfn, 'args': [{'k': 'move', 'p': pl('ref')}], 'arg_tys': [tys[1]], 'dest_ty': tys[2], 'dest': pl('opt'), 't': N2, 'sp': sp}})
-    b['blocks'].append({'st': [{'k': 'assign', 'p': pl('d'), 'rv': {'k': 'discr', 'adt': 'std::option::Option', 'p': pl('opt')}, 'ty': 'isize', 'sp': sp}],
-                        't': {'k': 'switch', 'o': {'k': 'move', 'p': pl('d')}, 'ty': 'isize', 'targets': [['0', N4], ['1', N3]], 'otherwise': N5, 'sp': sp}})
-    some0 = [{'k': 'downcast', 'v': 'Some', 'adt': 'std::option::Option'}, {'k': 'field', 'i': 0, 'n': '0', 'adt': 'std::option::Option', 'v': 'Some'}]
-    st3 = [{'k': 'assign', 'p': pl('item'), 'rv': {'k': 'use', 'o': {'k': 'move', 'p': pl('opt', some0)}}, 'ty': item_ty, 'sp': sp}]
-    if by_ref:
-        st3.append({'k': 'assign', 'p': pl('cref'), 'rv': {'k': 'ref', 'mut': env_ty.startswith('&mut'), 'p': {'l': cl, 'pr': []}}, 'ty': env_ty, 'sp': sp})
-    else:
-        st3.append({'k': 'assign', 'p': pl('cref'), 'rv': {'k': 'use', 'o': {'k': 'move', 'p': {'l': cl, 'pr': []}}}, 'ty': env_ty, 'sp': sp})
-    cargs = [{'k': 'move', 'p': pl('cref')}] + ([{'k': 'move', 'p': pl('acc')}] if kind == 'fold' else []) + [{'k': 'move', 'p': pl('item')}]
-    cdest = pl('acc') if kind == 'fold' else pl('unit')
-    b['blocks'].append({'st': st3, 't': {'k': 'call', 'f': {'k': 'const', 'ty': 'closure', 'fn': {'def': cq, 'path': cq, 'name': 'closure', 'local': True}},
-                                         'args': cargs, 'arg_tys': [env_ty] + ([tys[7]] if kind == 'fold' else []) + [item_ty],
-                                         'dest_ty': tys[7] if kind == 'fold' else '()', 'dest': cdest, 't': N1, 'sp': sp}})
-    fin = {'k': 'use', 'o': {'k': 'move', 'p': pl('acc')}} if kind == 'fold' else {'k': 'use', 'o': {'k': 'const', 'ty': '()', 'text': 'Val(ZeroSized, ())'}}
-    b['blocks'].append({'st': [{'k': 'assign', 'p': copy.deepcopy(dest), 'rv': fin, 'ty': t.get('dest_ty', '()'), 'sp': sp}], 't': {'k': 'goto', 't': cont, 'sp': sp}})
-    b['blocks'].append({'st': [], 't': {'k': 'unreachable', 'sp': sp}})
-    # inline the closure body at N3 and resolve its captures
-    loff = len(b['locals'])
-    boff = len(b['blocks'])
-    _inline_at(b, N3, cb)
-    env = loff + 1
+def _resolve_captures(b, boff, env, by_ref, cagg, cl, extra_dead):
+    """after a closure body was inlined at block offset boff with its environment parameter in local `env`: places that
+    go through the environment are rewritten to the captured variables, and the plumbing that nothing reads any more
+    (environment, closure value, capture references) is removed"""
     ops = cagg.get('ops') or []
     new_blocks = b['blocks'][boff:]
     places = []
@@ -580,7 +566,589 @@ def _expand_internal(b, bi, kind, bodies):
                             p['l'] = tgt['l']
                             p['pr'] = copy.deepcopy(tgt['pr']) + p['pr'][1:]
                     temps.append(tl)
-    for n in temps + [env, loc['cref'], cl] + cap_locals:
+    for n in temps + [env] + list(extra_dead) + [cl] + cap_locals:
         if only_defined(n):
             drop_defs(n)
+
+
+def _call_def(b, n):
+    """(block index, terminator) of the call whose destination is the only definition of local n, else None"""
+    hits = []
+    for bi2, blk in enumerate(b['blocks']):
+        for st in blk['st']:
+            if st.get('k') == 'assign' and st['p']['l'] == n and not st['p']['pr']:
+                hits.append(None)
+        t = blk['t']
+        if t['k'] == 'call' and t.get('dest') and t['dest']['l'] == n and not t['dest']['pr']:
+            hits.append((bi2, t))
+    return hits[0] if len(hits) == 1 and hits[0] is not None else None
+
+
+def _closure_of(b, op, bodies):
+    """(closure local, aggregate rvalue, closure body) for an operand that is a closure literal of this function"""
+    if op.get('k') not in ('move', 'copy') or op['p']['pr']:
+        return None
+    cl = op['p']['l']
+    d = _single_def(b, cl)
+    if d is None or d[2]['rv'].get('k') != 'agg' or d[2]['rv'].get('ak') != 'closure':
+        return None
+    cb = bodies.get(d[2]['rv'].get('def'))
+    if cb is None:
+        return None
+    return cl, d[2]['rv'], cb
+
+
+def _expand_internal(b, bi, kind, bodies):
+    blk = b['blocks'][bi]
+    t = blk['t']
+    args = t['args']
+    want = 2 if kind == 'for_each' else 3
+    if len(args) != want:
+        return None
+    fin_c = _closure_of(b, args[-1], bodies)
+    if fin_c is None or fin_c[2].get('argc') != want:
+        return None
+    sp = t.get('sp')
+    # adaptor chain between the base iterator and the consumer: .map(f) / .filter(p), outermost first
+    chain = []
+    base_op = args[0]
+    for _ in range(6):
+        if base_op.get('k') not in ('move', 'copy') or base_op['p']['pr']:
+            break
+        l0 = _trace_local(b, base_op, hops=3)
+        cd = _call_def(b, l0) if l0 is not None else None
+        if cd is None:
+            break
+        fn = (cd[1].get('f') or {}).get('fn') or {}
+        ak = {'std::iter::Iterator::map': 'map', 'std::iter::Iterator::filter': 'filter'}.get(fn.get('def'))
+        if ak is None or len(cd[1]['args']) != 2:
+            break
+        ac = _closure_of(b, cd[1]['args'][1], bodies)
+        if ac is None or ac[2].get('argc') != 2:
+            break
+        chain.append((ak, ac, cd))
+        base_op = cd[1]['args'][0]
+    # the adaptor objects are not built any more: their constructor calls become plain jumps, the base iterator is used
+    for ak, ac, cd in chain:
+        cblk = b['blocks'][cd[0]]
+        cblk['t'] = {'k': 'goto', 't': cd[1]['t'], 'sp': cd[1].get('sp')}
+    it_ty = '?'
+    if base_op.get('k') in ('move', 'copy') and not base_op['p']['pr']:
+        it_ty = b['locals'][base_op['p']['l']].get('ty', '?')
+    stages = [(ak, ac) for ak, ac, cd in reversed(chain)] + [(kind, fin_c)]
+    first_cb = stages[0][1][2]
+    item_ty = first_cb['locals'][first_cb['argc']]['ty']
+    if stages[0][0] == 'filter' and item_ty.startswith('&'):
+        item_ty = item_ty[1:]
+
+    def newlocal(ty):
+        b['locals'].append({'ty': ty})
+        return len(b['locals']) - 1
+    L_it, L_ref, L_opt, L_d = newlocal(it_ty), newlocal('&mut ' + it_ty), newlocal('std::option::Option<%s>' % item_ty), newlocal('isize')
+    L_acc = newlocal(t.get('dest_ty', '?')) if kind == 'fold' else None
+    P = lambda l, pr=None: {'l': l, 'pr': pr or []}
+    cont = t['t']
+    dest = t['dest']
+    blk['st'].append({'k': 'assign', 'p': P(L_it), 'rv': {'k': 'use', 'o': copy.deepcopy(base_op)}, 'ty': it_ty, 'sp': sp})
+    if kind == 'fold':
+        blk['st'].append({'k': 'assign', 'p': P(L_acc), 'rv': {'k': 'use', 'o': copy.deepcopy(args[1])}, 'ty': t.get('dest_ty', '?'), 'sp': sp})
+    N1 = len(b['blocks'])
+    N2, N4, N5 = N1 + 1, N1 + 2, N1 + 3
+    S0 = N1 + 4
+    blk['t'] = {'k': 'goto', 't': N1, 'sp': sp}
+    nextfn = {'k': 'const', 'ty': 'fn(&mut %s) -> Option<%s> {<%s as std::iter::Iterator>::next}' % (it_ty, item_ty, it_ty),
+              'fn': {'def': 'std::iter::Iterator::next', 'path': 'std::iter::Iterator::next', 'name': 'next', 'local': False, 'substs': [it_ty],
+                     'subst_heads': [it_ty.split('<')[0]], 'trait': 'std::iter::Iterator', 'self': it_ty, 'self_head': it_ty.split('<')[0], 'res_kind': 'item'}}
+    b['blocks'].append({'st': [{'k': 'assign', 'p': P(L_ref), 'rv': {'k': 'ref', 'mut': True, 'p': P(L_it)}, 'ty': '&mut ' + it_ty, 'sp': sp}],
+                        't': {'k': 'call', 'f': nextfn, 'args': [{'k': 'move', 'p': P(L_ref)}], 'arg_tys': ['&mut ' + it_ty], 'dest_ty': 'std::option::Option<%s>' % item_ty, 'dest': P(L_opt), 't': N2, 'sp': sp}})
+    b['blocks'].append({'st': [{'k': 'assign', 'p': P(L_d), 'rv': {'k': 'discr', 'adt': 'std::option::Option', 'p': P(L_opt)}, 'ty': 'isize', 'sp': sp}],
+                        't': {'k': 'switch', 'o': {'k': 'move', 'p': P(L_d)}, 'ty': 'isize', 'targets': [['0', N4], ['1', S0]], 'otherwise': N5, 'sp': sp}})
+    fin = {'k': 'use', 'o': {'k': 'move', 'p': P(L_acc)}} if kind == 'fold' else {'k': 'use', 'o': {'k': 'const', 'ty': '()', 'text': 'Val(ZeroSized, ())'}}
+    b['blocks'].append({'st': [{'k': 'assign', 'p': copy.deepcopy(dest), 'rv': fin, 'ty': t.get('dest_ty', '()'), 'sp': sp}], 't': {'k': 'goto', 't': cont, 'sp': sp}})
+    b['blocks'].append({'st': [], 't': {'k': 'unreachable', 'sp': sp}})
+    # stage blocks: S0 .. ; a filter stage has an extra block that tests its result
+    some0 = [{'k': 'downcast', 'v': 'Some', 'adt': 'std::option::Option'}, {'k': 'field', 'i': 0, 'n': '0', 'adt': 'std::option::Option', 'v': 'Some'}]
+    cur_item = newlocal(item_ty)
+    pre = [{'k': 'assign', 'p': P(cur_item), 'rv': {'k': 'use', 'o': {'k': 'move', 'p': P(L_opt, some0)}}, 'ty': item_ty, 'sp': sp}]
+    plan = []            # (block index of the synthetic call, stage)
+    nblocks = len(b['blocks'])
+    idx = nblocks
+    layout = []
+    for ak, ac in stages:
+        layout.append(idx)
+        idx += 2 if ak == 'filter' else 1
+    for si, (ak, ac) in enumerate(stages):
+        cl, cagg, cb = ac
+        env_ty = cb['locals'][1]['ty']
+        by_ref = env_ty.startswith('&')
+        cref = newlocal(env_ty)
+        st = list(pre)
+        pre = []
+        if by_ref:
+            st.append({'k': 'assign', 'p': P(cref), 'rv': {'k': 'ref', 'mut': env_ty.startswith('&mut'), 'p': P(cl)}, 'ty': env_ty, 'sp': sp})
+        else:
+            st.append({'k': 'assign', 'p': P(cref), 'rv': {'k': 'use', 'o': {'k': 'move', 'p': P(cl)}}, 'ty': env_ty, 'sp': sp})
+        nxt = layout[si + 1] if si + 1 < len(stages) else N1
+        fnc = {'k': 'const', 'ty': 'closure', 'fn': {'def': cb['q'], 'path': cb['q'], 'name': 'closure', 'local': True}}
+        if ak == 'map':
+            out_ty = cb['locals'][0]['ty']
+            out = newlocal(out_ty)
+            term = {'k': 'call', 'f': fnc, 'args': [{'k': 'move', 'p': P(cref)}, {'k': 'move', 'p': P(cur_item)}], 'arg_tys': [env_ty, '?'], 'dest_ty': out_ty, 'dest': P(out), 't': nxt, 'sp': sp}
+            b['blocks'].append({'st': st, 't': term})
+            cur_item = out
+        elif ak == 'filter':
+            rty = cb['locals'][2]['ty']
+            r = newlocal(rty)
+            flag = newlocal('bool')
+            st.append({'k': 'assign', 'p': P(r), 'rv': {'k': 'ref', 'mut': False, 'p': P(cur_item)}, 'ty': rty, 'sp': sp})
+            term = {'k': 'call', 'f': fnc, 'args': [{'k': 'move', 'p': P(cref)}, {'k': 'move', 'p': P(r)}], 'arg_tys': [env_ty, rty], 'dest_ty': 'bool', 'dest': P(flag), 't': layout[si] + 1, 'sp': sp}
+            b['blocks'].append({'st': st, 't': term})
+            b['blocks'].append({'st': [], 't': {'k': 'switch', 'o': {'k': 'move', 'p': P(flag)}, 'ty': 'bool', 'targets': [['0', N1]], 'otherwise': nxt, 'sp': sp}})
+        else:
+            cargs = [{'k': 'move', 'p': P(cref)}] + ([{'k': 'move', 'p': P(L_acc)}] if kind == 'fold' else []) + [{'k': 'move', 'p': P(cur_item)}]
+            cdest = P(L_acc) if kind == 'fold' else P(newlocal('()'))
+            term = {'k': 'call', 'f': fnc, 'args': cargs, 'arg_tys': [env_ty] + (['?'] if kind == 'fold' else []) + ['?'], 'dest_ty': '?', 'dest': cdest, 't': N1, 'sp': sp}
+            b['blocks'].append({'st': st, 't': term})
+        plan.append((layout[si], cl, cagg, cb, by_ref, cref))
+    for bidx, cl, cagg, cb, by_ref, cref in plan:
+        loff = len(b['locals'])
+        boff = len(b['blocks'])
+        _inline_at(b, bidx, cb, forward_refs=False)
+        _resolve_captures(b, boff, loff + 1, by_ref, cagg, cl, [cref])
+    if kind == 'fold' and str(t.get('dest_ty', '')).startswith('('):
+        # the accumulator tuple threads separate state variables through the loop: make them variables again
+        _split_tuple_group(b, L_acc)
+    return fin_c[2]['q']
+
+
+# ------------------------------------------------------------------ jump threading after inlining
+def _preds(b):
+    preds = {}
+    for i, blk in enumerate(b['blocks']):
+        t = blk['t']
+        succ = []
+        if t['k'] == 'goto':
+            succ = [t['t']]
+        elif t['k'] == 'switch':
+            succ = [x[1] for x in t['targets']] + [t['otherwise']]
+        elif t['k'] in ('call', 'drop', 'assert') and 't' in t and t['t'] is not None:
+            succ = [t['t']]
+        for s2 in succ:
+            preds.setdefault(s2, []).append(i)
+    return preds
+
+
+def _reachable(b):
+    seen = {0}
+    st = [0]
+    while st:
+        i = st.pop()
+        t = b['blocks'][i]['t']
+        succ = []
+        if t['k'] == 'goto':
+            succ = [t['t']]
+        elif t['k'] == 'switch':
+            succ = [x[1] for x in t['targets']] + [t['otherwise']]
+        elif t['k'] in ('call', 'drop', 'assert') and t.get('t') is not None:
+            succ = [t['t']]
+        for s2 in succ:
+            if s2 not in seen:
+                seen.add(s2)
+                st.append(s2)
+    return seen
+
+
+def thread_jumps(b, adts):
+    """After a helper that returns an enum (`Option`, `bool`-like enums) was inlined, its `return None` / `return Some(x)`
+    sites all flow into one block that immediately switches on the discriminant of the returned value.  Each such
+    predecessor jumps to the arm its variant selects instead (the join's copy statements are repeated in the predecessor),
+    so that what guarded the `Some` exit of the helper guards the `Some` arm of the caller again.  Applied only to
+    bodies the inliner changed."""
+    VAR = {('std::option::Option', 'None'): 0, ('std::option::Option', 'Some'): 1, ('std::result::Result', 'Ok'): 0, ('std::result::Result', 'Err'): 1,
+           ('core::option::Option', 'None'): 0, ('core::option::Option', 'Some'): 1}
+    for a in adts:
+        for v in a.get('variants', []):
+            VAR[(a['q'], v['name'])] = v.get('idx')
+    blocks = b['blocks']
+    for _round in range(6):
+        changed = False
+        # merge straight-line chains A -> B where B has no other predecessor
+        reach = _reachable(b)
+        preds = _preds(b)
+        for A in sorted(reach):
+            ta = blocks[A]['t']
+            while ta['k'] == 'goto' and ta['t'] != A and ta['t'] != 0 and len([p for p in preds.get(ta['t'], []) if p in reach]) == 1 and not blocks[ta['t']].get('cleanup') and not blocks[A].get('cleanup'):
+                B = ta['t']
+                blocks[A]['st'] = blocks[A]['st'] + blocks[B]['st']
+                blocks[A]['t'] = blocks[B]['t']
+                blocks[B] = {'st': [], 't': {'k': 'unreachable', 'sp': ta.get('sp')}}
+                ta = blocks[A]['t']
+                preds = _preds(b)
+                reach = _reachable(b)
+                changed = True
+        reach = _reachable(b)
+        preds = _preds(b)
+        for J in sorted(reach):
+            blk = blocks[J]
+            t = blk['t']
+            if t['k'] != 'switch' or t['o'].get('k') not in ('move', 'copy') or t['o']['p']['pr']:
+                continue
+            dl = t['o']['p']['l']
+            # statements: copies ... ; d = discr(L)
+            sts = [st for st in blk['st'] if st.get('k') == 'assign']
+            if len(sts) != len(blk['st']) or not sts:
+                continue
+            last = sts[-1]
+            if last['p']['l'] != dl or last['p']['pr'] or last['rv'].get('k') != 'discr' or last['rv']['p']['pr']:
+                continue
+            root = last['rv']['p']['l']
+            ok = True
+            for st in reversed(sts[:-1]):
+                rv = st['rv']
+                if st['p']['pr'] or rv.get('k') != 'use' or rv['o'].get('k') not in ('move', 'copy') or rv['o']['p']['pr']:
+                    ok = False
+                    break
+                if st['p']['l'] == root:
+                    root = rv['o']['p']['l']
+            if not ok:
+                continue
+            for P in list(preds.get(J, [])):
+                if P == J or P not in reach:
+                    continue
+                pb = blocks[P]
+                if pb['t']['k'] != 'goto':
+                    continue
+                v = None
+                for st in reversed(pb['st']):
+                    if st.get('k') == 'assign' and st['p']['l'] == root:
+                        if not st['p']['pr'] and st['rv'].get('k') == 'agg' and st['rv'].get('ak') == 'adt':
+                            v = (st['rv'].get('adt'), st['rv'].get('v'))
+                        break
+                if v is None or VAR.get(v) is None:
+                    continue
+                idx = str(VAR[v])
+                tgt = dict((x[0], x[1]) for x in t['targets']).get(idx, t['otherwise'])
+                pb['st'] = pb['st'] + copy.deepcopy(blk['st'])
+                pb['t'] = {'k': 'goto', 't': tgt, 'sp': pb['t'].get('sp')}
+                changed = True
+        if not changed:
+            break
+
+
+def inline_closure_calls(raw):
+    """`f(args)` where f is a closure literal of the same function that reached the call through moves only (typically
+    after a higher-order private helper `fn with_x(&mut self, f: impl FnOnce(..))` was inlined by A11): the closure body
+    is inlined at the call and its captures resolved.  Returns descriptions."""
+    bodies = {b['q']: b for b in raw['bodies']}
+    done = []
+    used = set()
+    for b in raw['bodies']:
+        bi = 0
+        while bi < len(b['blocks']):
+            blk = b['blocks'][bi]
+            t = blk['t']
+            if t['k'] == 'call' and not blk.get('cleanup') and t.get('t') is not None:
+                fn = (t.get('f') or {}).get('fn') or {}
+                d = fn.get('def') or ''
+                if d.split('::')[-1] in ('call_once', 'call_mut', 'call') and 'ops::' in d and '::Fn' in d and len(t['args']) == 2:
+                    cq = _inline_closure_call(b, bi, bodies)
+                    if cq:
+                        done.append('closure %s called in %s: body inlined' % (cq.rsplit('::', 1)[-1], b['q']))
+                        used.add(cq)
+            bi += 1
+    if used:
+        still = set()
+        for b in raw['bodies']:
+            s2 = json.dumps(b['blocks'])
+            for h in used:
+                if '"def": "%s"' % h in s2:
+                    still.add(h)
+        raw['bodies'] = [b for b in raw['bodies'] if not (b['q'] in used and b['q'] not in still)]
+    return done
+
+
+def _trace_local(b, op, hops=6):
+    """follow `x = move y` / `x = &y` chains of single-definition locals from an operand: the final local"""
+    if op.get('k') not in ('move', 'copy') or op['p']['pr']:
+        return None
+    l = op['p']['l']
+    for _ in range(hops):
+        d = _single_def(b, l)
+        if d is None:
+            return l
+        rv = d[2]['rv']
+        if rv.get('k') == 'use' and rv['o'].get('k') in ('move', 'copy') and not rv['o']['p']['pr']:
+            l = rv['o']['p']['l']
+        elif rv.get('k') == 'ref' and not rv['p']['pr']:
+            l = rv['p']['l']
+        elif rv.get('k') == 'ref' and len(rv['p']['pr']) == 1 and rv['p']['pr'][0].get('k') == 'deref':
+            l = rv['p']['l']
+        else:
+            return l
+    return l
+
+
+def _inline_closure_call(b, bi, bodies):
+    blk = b['blocks'][bi]
+    t = blk['t']
+    cl = _trace_local(b, t['args'][0])
+    if cl is None:
+        return None
+    d = _single_def(b, cl)
+    if d is None or d[2]['rv'].get('k') != 'agg' or d[2]['rv'].get('ak') != 'closure':
+        return None
+    cagg = d[2]['rv']
+    cq = cagg.get('def')
+    cb = bodies.get(cq)
+    if cb is None or cb['q'] == b['q']:
+        return None
+    tl = _trace_local(b, t['args'][1], hops=2)
+    td = _single_def(b, tl) if tl is not None else None
+    if td is None or td[2]['rv'].get('k') != 'agg' or td[2]['rv'].get('ak') != 'tuple':
+        return None
+    actual = td[2]['rv']['ops']
+    if cb.get('argc') != 1 + len(actual):
+        return None
+    sp = t.get('sp')
+    env_ty = cb['locals'][1]['ty']
+    by_ref = env_ty.startswith('&')
+    cref = len(b['locals'])
+    b['locals'].append({'ty': env_ty})
+    if by_ref:
+        blk['st'].append({'k': 'assign', 'p': {'l': cref, 'pr': []}, 'rv': {'k': 'ref', 'mut': env_ty.startswith('&mut'), 'p': {'l': cl, 'pr': []}}, 'ty': env_ty, 'sp': sp})
+    else:
+        blk['st'].append({'k': 'assign', 'p': {'l': cref, 'pr': []}, 'rv': {'k': 'use', 'o': {'k': 'move', 'p': {'l': cl, 'pr': []}}}, 'ty': env_ty, 'sp': sp})
+    t['f'] = {'k': 'const', 'ty': 'closure', 'fn': {'def': cq, 'path': cq, 'name': 'closure', 'local': True}}
+    t['args'] = [{'k': 'move', 'p': {'l': cref, 'pr': []}}] + copy.deepcopy(actual)
+    t['arg_tys'] = [env_ty] + [cb['locals'][2 + i]['ty'] for i in range(len(actual))]
+    loff = len(b['locals'])
+    boff = len(b['blocks'])
+    _inline_at(b, bi, cb, forward_refs=False)
+    _resolve_captures(b, boff, loff + 1, by_ref, cagg, cl, [cref])
     return cq
+
+
+def _split_tuple_local(b, n, names, tys):
+    return _split_tuple_group(b, n, names, tys)
+
+
+def _split_tuple_group(b, seed, names=None, tys=None):
+    """scalar replacement: tuple-valued locals that are only ever built from aggregates, moved whole into one another and
+    read/written field by field become one local per field, so that values a struct or a fold accumulator bundled are
+    ordinary variables again.  The group is the set of locals connected to `seed` by whole moves; any other whole use
+    (passing the tuple to a call, taking its address) leaves everything as it is."""
+    def is_fieldproj(p):
+        return bool(p['pr']) and p['pr'][0].get('k') == 'field' and p['pr'][0].get('adt') == '(tuple)'
+    ty = b['locals'][seed].get('ty')
+    group = {seed}
+    grew = True
+    while grew:
+        grew = False
+        for blk in b['blocks']:
+            for st in blk['st']:
+                if st.get('k') == 'assign' and not st['p']['pr'] and st['rv'].get('k') == 'use' and st['rv']['o'].get('k') in ('move', 'copy') and not st['rv']['o']['p']['pr']:
+                    a, c = st['p']['l'], st['rv']['o']['p']['l']
+                    if (a in group) != (c in group) and b['locals'][a].get('ty') == ty and b['locals'][c].get('ty') == ty:
+                        group |= {a, c}
+                        grew = True
+    if any(g <= b.get('argc', 0) for g in group):
+        return False
+    width = None
+    for blk in b['blocks']:
+        for st in blk['st']:
+            whole_ok = False
+            if st.get('k') == 'assign' and st['p']['l'] in group and not st['p']['pr']:
+                rv = st['rv']
+                if rv.get('k') == 'agg' and rv.get('ak') == 'tuple':
+                    if width is None:
+                        width = len(rv['ops'])
+                    if len(rv['ops']) != width or any(_uses_local(rv, g) for g in group):
+                        return False
+                    whole_ok = True
+                elif rv.get('k') == 'use' and rv['o'].get('k') in ('move', 'copy') and not rv['o']['p']['pr'] and rv['o']['p']['l'] in group:
+                    whole_ok = True
+                else:
+                    return False
+            ps = []
+            _places(st, ps)
+            for p in ps:
+                if p['l'] in group and not is_fieldproj(p):
+                    if whole_ok and (p is st['p'] or (st['rv'].get('k') == 'use' and p is st['rv']['o']['p'])):
+                        continue
+                    return False
+        ps = []
+        _places(blk['t'], ps)
+        for p in ps:
+            if p['l'] in group and not is_fieldproj(p):
+                return False
+    if names is None:
+        if width is None:
+            return False
+        names = [None] * width
+        tys = ['?'] * width
+    width = len(names)
+    new = {}
+    for g in sorted(group):
+        base = b['locals'][g].get('name')
+        new[g] = []
+        for i in range(width):
+            nm = names[i] if names[i] else (('%s.%d' % (base, i)) if base else None)
+            l = {'ty': tys[i]}
+            if nm:
+                l['name'] = nm
+            b['locals'].append(l)
+            new[g].append(len(b['locals']) - 1)
+    for blk in b['blocks']:
+        out = []
+        for st in blk['st']:
+            if st.get('k') == 'assign' and st['p']['l'] in group and not st['p']['pr']:
+                g = st['p']['l']
+                if st['rv'].get('k') == 'agg':
+                    for i, op in enumerate(st['rv']['ops']):
+                        out.append({'k': 'assign', 'p': {'l': new[g][i], 'pr': []}, 'rv': {'k': 'use', 'o': op}, 'ty': tys[i], 'sp': st.get('sp')})
+                else:
+                    src = st['rv']['o']['p']['l']
+                    for i in range(width):
+                        out.append({'k': 'assign', 'p': {'l': new[g][i], 'pr': []}, 'rv': {'k': 'use', 'o': {'k': st['rv']['o']['k'], 'p': {'l': new[src][i], 'pr': []}}}, 'ty': tys[i], 'sp': st.get('sp')})
+                continue
+            out.append(st)
+        blk['st'] = out
+    places = []
+    _places(b['blocks'], places)
+    for p in places:
+        if p['l'] in group and p['pr'] and p['pr'][0].get('k') == 'field':
+            i = int(p['pr'][0]['n'])
+            p['l'] = new[p['l']][i]
+            p['pr'] = p['pr'][1:]
+    return True
+
+
+def normalise_mem_ops(raw):
+    """`opt.replace(v)`, `opt.take()`, `mem::replace(&mut x, v)` on a place of this function are the read and the
+    assignment they stand for: `old = x; x = Some(v) / None / v`.  The audited tree uses none of them.  Returns
+    descriptions."""
+    done = []
+    KINDS = {'std::option::Option::<T>::replace': 'opt_replace', 'std::option::Option::<T>::take': 'opt_take',
+             'std::mem::replace': 'replace', 'core::mem::replace': 'replace'}
+    for b in raw['bodies']:
+        for blk in b['blocks']:
+            t = blk['t']
+            if t['k'] != 'call' or blk.get('cleanup') or t.get('t') is None:
+                continue
+            fn = (t.get('f') or {}).get('fn') or {}
+            kind = KINDS.get(fn.get('def'))
+            if kind is None:
+                continue
+            a0 = t['args'][0]
+            if a0.get('k') not in ('move', 'copy') or a0['p']['pr']:
+                continue
+            u = a0['p']['l']
+            ud = _single_def(b, u)
+            if ud is None or ud[2]['rv'].get('k') != 'ref':
+                continue
+            P = ud[2]['rv']['p']
+            if any(e.get('k') not in ('field', 'deref') for e in P['pr']):
+                continue
+            sp = t.get('sp')
+            dest = t['dest']
+            substs = fn.get('substs') or []
+            if kind == 'opt_replace':
+                newv = {'k': 'agg', 'ak': 'adt', 'adt': 'std::option::Option', 'v': 'Some', 'fields': ['0'], 'substs': substs[:1], 'ops': [copy.deepcopy(t['args'][1])]}
+            elif kind == 'opt_take':
+                newv = {'k': 'agg', 'ak': 'adt', 'adt': 'std::option::Option', 'v': 'None', 'fields': [], 'substs': substs[:1], 'ops': []}
+            else:
+                newv = {'k': 'use', 'o': copy.deepcopy(t['args'][1])}
+            blk['st'].append({'k': 'assign', 'p': copy.deepcopy(dest), 'rv': {'k': 'use', 'o': {'k': 'copy', 'p': copy.deepcopy(P)}}, 'ty': t.get('dest_ty', '?'), 'sp': sp})
+            blk['st'].append({'k': 'assign', 'p': copy.deepcopy(P), 'rv': newv, 'ty': t.get('dest_ty', '?'), 'sp': sp})
+            blk['t'] = {'k': 'goto', 't': t['t'], 'sp': sp}
+            # the reference temporary is dead now
+            still = False
+            for blk2 in b['blocks']:
+                for st in blk2['st']:
+                    if st.get('k') == 'assign' and st['p']['l'] == u and not st['p']['pr']:
+                        continue
+                    if _uses_local(st, u):
+                        still = True
+                if _uses_local(blk2['t'], u):
+                    still = True
+            if not still:
+                for blk2 in b['blocks']:
+                    blk2['st'] = [st for st in blk2['st'] if not (st.get('k') == 'assign' and st['p']['l'] == u and not st['p']['pr'])]
+            done.append('%s in %s written as read + assignment' % (fn.get('def').split('::')[-1], b['q']))
+    return done
+
+
+def normalise_option_filter(raw):
+    """`opt.filter(|x| cond)` with a closure literal is the match it stands for: None stays None, Some(x) stays Some(x)
+    when cond holds and becomes None otherwise; the closure is inlined.  (The audited tree has no Option::filter.)
+    Returns descriptions."""
+    bodies = {b['q']: b for b in raw['bodies']}
+    done = []
+    used = set()
+    for b in raw['bodies']:
+        bi = 0
+        while bi < len(b['blocks']):
+            blk = b['blocks'][bi]
+            t = blk['t']
+            bi += 1
+            if t['k'] != 'call' or blk.get('cleanup') or t.get('t') is None:
+                continue
+            fn = (t.get('f') or {}).get('fn') or {}
+            if fn.get('def') != 'std::option::Option::<T>::filter' or len(t['args']) != 2:
+                continue
+            oc = _closure_of(b, t['args'][1], bodies)
+            a0 = t['args'][0]
+            if oc is None or oc[2].get('argc') != 2 or a0.get('k') not in ('move', 'copy') or a0['p']['pr']:
+                continue
+            cl, cagg, cb = oc
+            sp = t.get('sp')
+            opt = a0['p']['l']
+            dest = t['dest']
+            cont = t['t']
+            oty = t.get('dest_ty', '?')
+            env_ty = cb['locals'][1]['ty']
+            by_ref = env_ty.startswith('&')
+            rty = cb['locals'][2]['ty']
+
+            def newlocal(ty):
+                b['locals'].append({'ty': ty})
+                return len(b['locals']) - 1
+            L_d, L_ref, L_cref, L_flag = newlocal('isize'), newlocal(rty), newlocal(env_ty), newlocal('bool')
+            P = lambda l, pr=None: {'l': l, 'pr': pr or []}
+            some0 = [{'k': 'downcast', 'v': 'Some', 'adt': 'std::option::Option'}, {'k': 'field', 'i': 0, 'n': '0', 'adt': 'std::option::Option', 'v': 'Some'}]
+            substs = (fn.get('substs') or [])[:1]
+            M1 = len(b['blocks'])
+            MN, MS, MF, MY, MU = M1 + 1, M1 + 2, M1 + 3, M1 + 4, M1 + 5
+            blk['t'] = {'k': 'goto', 't': M1, 'sp': sp}
+            b['blocks'].append({'st': [{'k': 'assign', 'p': P(L_d), 'rv': {'k': 'discr', 'adt': 'std::option::Option', 'p': P(opt)}, 'ty': 'isize', 'sp': sp}],
+                                't': {'k': 'switch', 'o': {'k': 'move', 'p': P(L_d)}, 'ty': 'isize', 'targets': [['0', MN], ['1', MS]], 'otherwise': MU, 'sp': sp}})
+            b['blocks'].append({'st': [{'k': 'assign', 'p': copy.deepcopy(dest), 'rv': {'k': 'agg', 'ak': 'adt', 'adt': 'std::option::Option', 'v': 'None', 'fields': [], 'substs': substs, 'ops': []}, 'ty': oty, 'sp': sp}],
+                                't': {'k': 'goto', 't': cont, 'sp': sp}})
+            st = [{'k': 'assign', 'p': P(L_ref), 'rv': {'k': 'ref', 'mut': False, 'p': P(opt, some0)}, 'ty': rty, 'sp': sp}]
+            if by_ref:
+                st.append({'k': 'assign', 'p': P(L_cref), 'rv': {'k': 'ref', 'mut': env_ty.startswith('&mut'), 'p': P(cl)}, 'ty': env_ty, 'sp': sp})
+            else:
+                st.append({'k': 'assign', 'p': P(L_cref), 'rv': {'k': 'use', 'o': {'k': 'move', 'p': P(cl)}}, 'ty': env_ty, 'sp': sp})
+            b['blocks'].append({'st': st, 't': {'k': 'call', 'f': {'k': 'const', 'ty': 'closure', 'fn': {'def': cb['q'], 'path': cb['q'], 'name': 'closure', 'local': True}},
+                                                'args': [{'k': 'move', 'p': P(L_cref)}, {'k': 'move', 'p': P(L_ref)}], 'arg_tys': [env_ty, rty], 'dest_ty': 'bool', 'dest': P(L_flag), 't': MF, 'sp': sp}})
+            b['blocks'].append({'st': [], 't': {'k': 'switch', 'o': {'k': 'move', 'p': P(L_flag)}, 'ty': 'bool', 'targets': [['0', MN]], 'otherwise': MY, 'sp': sp}})
+            b['blocks'].append({'st': [{'k': 'assign', 'p': copy.deepcopy(dest), 'rv': {'k': 'agg', 'ak': 'adt', 'adt': 'std::option::Option', 'v': 'Some', 'fields': ['0'], 'substs': substs,
+                                                                                    'ops': [{'k': 'move', 'p': P(opt, some0)}]}, 'ty': oty, 'sp': sp}],
+                                't': {'k': 'goto', 't': cont, 'sp': sp}})
+            b['blocks'].append({'st': [], 't': {'k': 'unreachable', 'sp': sp}})
+            loff = len(b['locals'])
+            boff = len(b['blocks'])
+            _inline_at(b, MS, cb, forward_refs=False)
+            _resolve_captures(b, boff, loff + 1, by_ref, cagg, cl, [L_cref])
+            thread_jumps(b, raw.get('adts', []))
+            used.add(cb['q'])
+            done.append('Option::filter in %s written as a match (closure inlined)' % b['q'])
+    if used:
+        still = set()
+        for b in raw['bodies']:
+            s2 = json.dumps(b['blocks'])
+            for h in used:
+                if '"def": "%s"' % h in s2:
+                    still.add(h)
+        raw['bodies'] = [b for b in raw['bodies'] if not (b['q'] in used and b['q'] not in still)]
+    return done
